@@ -435,7 +435,7 @@ theorem repo_not_correct_cmp_out_of_range :
   decide
 
 /-- Known finding `strings-nil-ptr-panics`: a typed-nil pointer argument is dereferenced. -/
-theorem repo_nil_ptr_panics : (stringsGet LibCfg.repo false .nilPtr exS [seg "0"] == .panic) = true := by decide
+theorem repo_nil_ptr_panics : (stringsGet LibCfg.original false .nilPtr exS [seg "0"] == .panic) = true := by decide
 end NonVacuity
 
 /-! ### The tree as it is now
@@ -480,6 +480,22 @@ theorem deq_current (fl fr : Form) (a b : Val) (hl : fl â‰  .nilPtr) (hr : fr â‰
   have h2 : stringsDeq LibCfg.repo fr fl b a = stringsDeq LibCfg.fixed fr fl b a := by
     unfold stringsDeq; rw [spOf_repo fl hl, spOf_repo fr hr]; rfl
   rw [h1, h2]; exact deq_correct fl fr a b
+
+/-- Since `fix: StringsInspector dereferenced a typed-nil *[]string / *[][]byte` no switch of this inspector is
+left on: for every argument form the model of the current tree is the repaired model. -/
+theorem spOf_repo_all (f : Form) : spOf LibCfg.repo f = spOf LibCfg.fixed f := by cases f <;> rfl
+
+theorem get_current_all (isB : Bool) (f : Form) (v : Val) (p : List Seg) :
+    getAcc isB f v p (stringsGet LibCfg.repo isB f v p) = true := by
+  have h : stringsGet LibCfg.repo isB f v p = stringsGet LibCfg.fixed isB f v p := by
+    unfold stringsGet; rw [spOf_repo_all f]
+  rw [h]; exact get_correct isB f v p
+
+theorem get_no_panic_current (isB : Bool) (f : Form) (v : Val) (p : List Seg) :
+    (stringsGet LibCfg.repo isB f v p == .panic) = false := by
+  have h : stringsGet LibCfg.repo isB f v p = stringsGet LibCfg.fixed isB f v p := by
+    unfold stringsGet; rw [spOf_repo_all f]
+  rw [h]; exact get_no_panic isB f v p
 
 end CurrentTree
 
